@@ -46,7 +46,7 @@ BUDGET = {"quick": 120, "thorough": 900}
 # ---- part 1 alphabet ---------------------------------------------------------------------------------
 WORDS = ("a", "b")
 MAX_INDENT = 6
-NONCONTENT = ("", "   ", "!c", "  #c", "#")      # empty, blanks only, comment, indented # comment, section break
+NONCONTENT = ("", "   ", "!c", "  #c", "#", "#c")      # empty, blanks only, comment, indented # comment, section break (bare / with a remark)
 PRES = [()] + [(x,) for x in NONCONTENT] + [(x, y) for x in NONCONTENT for y in NONCONTENT]
 CONTENT = [" " * i + w for i in range(MAX_INDENT + 1) for w in WORDS]
 EVENTS = [list(p) + [c] for p in PRES for c in CONTENT] + [[]]     # [] = end of input
@@ -89,7 +89,7 @@ def bound_text(tier):
     s = ("part 1: closure of the reachable state set of the generator chain under %d events (indent 0..%d x %d words, "
          "<=2 of %d non-content lines before each content line, end of input): texts of any length over that "
          "alphabet; part 2: all texts of 1..%d lines over %d line symbols (indent 0..4 x {a,b}, empty, blanks only, "
-         "'!c', '  #c', '#') x %d variants (%s)" % (len(EVENTS), MAX_INDENT, len(WORDS), len(NONCONTENT), b["L_all"],
+         "'!c', '  #c', '#', '#c') x %d variants (%s)" % (len(EVENTS), MAX_INDENT, len(WORDS), len(NONCONTENT), b["L_all"],
                                                     len(MAIN_SYMS), len(VARIANTS), ", ".join(VARIANTS)))
     if b["L"] > b["L_all"]:
         s += "; all texts of %d lines over the same symbols x variants %s" % (b["L"], ", ".join(DEEP_VARIANTS))
